@@ -40,10 +40,13 @@ def _hankel(case):
     br = case["br"]
     O, A, C = S.observability(br + 1)
     G = rng.normal(size=(2 * m, r))
+    if case.get("weak") and m >= 2:
+        G[-2:, :] *= case["weak"]  # the last mode is excited much less than the others (its singular values lie decades below)
     Gam = np.hstack([np.linalg.matrix_power(A, k) @ G for k in range(br + 1)])
     H0 = O @ Gam
     E = rng.normal(size=H0.shape)
-    H = H0 + case["eps"] * np.linalg.norm(H0) / np.linalg.norm(E) * E
+    eps = case["eps"] * (case["weak"] * 1e-2 if case.get("weak") and m >= 2 else 1.0)  # the noise floor stays below the weak mode
+    H = H0 + eps * np.linalg.norm(H0) / np.linalg.norm(E) * E
     return S, H
 
 
@@ -60,6 +63,7 @@ def prop_case(draw):
     ordmax = min(ordmax, omax)
     return {"sys": s, "refs": refs, "br": br, "ordmax": ordmax, "eps": draw(st.sampled_from([1e-2, 1e-3, 5e-2])),
             "ncol": draw(st.integers(1, 20)), "tscale": draw(st.sampled_from([1e-3, 1.0, 1e-6])), "seed": draw(st.integers(0, 2**32 - 1)),
+            "weak": draw(st.sampled_from([None, None, None, 1e-4, 1e-5])),
             "forder": draw(st.integers(0, 3)) == 0, "hscale": 10.0 ** draw(st.sampled_from([0.0, 0.0, -6.0, -12.0, 4.0]))}
 
 
